@@ -319,26 +319,6 @@ Proof.
 Qed.
 
 (* ---------------------------------------------------------------- landing index, clockwise *)
-Lemma count_le_lt {A} (l : ring A) t : sorted_strict l -> (count_lt t l <= count_le t l <= count_lt t l + 1)%nat.
-Proof.
-  unfold count_lt, count_le. induction l as [|x r IH]; intros H; [cbn; lia|].
-  pose proof (sorted_strict_head_lt x r H) as Hlt. apply sorted_strict_tail in H.
-  specialize (IH H). cbn [filter].
-  destruct (fst x <? t) eqn:E1; destruct (fst x <=? t) eqn:E2; cbn [List.length]; try lia.
-  (* fst x = t : nothing after it is <= t *)
-  apply Z.ltb_ge in E1. apply Z.leb_le in E2.
-  rewrite (filter_nil_all (fun e => fst e <=? t) r), (filter_nil_all (fun e => fst e <? t) r).
-  - cbn. lia.
-  - intros y Hy. apply Z.ltb_ge. specialize (Hlt y Hy). lia.
-  - intros y Hy. apply Z.leb_gt. specialize (Hlt y Hy). lia.
-Qed.
-
-Lemma landing_strict {A} (l : ring A) t : sorted_strict l -> landing l t = count_lt t l.
-Proof.
-  intros H. unfold landing. pose proof (count_le_lt l t H).
-  destruct (count_lt t l <? count_le t l)%nat eqn:E; [apply Nat.ltb_lt in E|]; lia.
-Qed.
-
 Lemma split_at_count_lt {A} (l : ring A) t : sorted_weak l ->
   firstn (count_lt t l) l = filter (fun e => fst e <? t) l /\
   skipn (count_lt t l) l = filter (fun e => t <=? fst e) l.
@@ -355,12 +335,12 @@ Proof.
     + intros y Hy. apply Z.ltb_ge. specialize (Hle y Hy). lia.
 Qed.
 
-(* with distinct tokens the walk starts at the first position whose token is >= t *)
+(* the walk starts at the first position whose token is >= t *)
 Lemma ring_range_full_clockwise {A} (l : ring A) t :
-  sorted_strict l -> ring_range_full l t = clockwise l t.
+  sorted_weak l -> ring_range_full l t = clockwise l t.
 Proof.
-  intros H. unfold ring_range_full, clockwise. rewrite landing_strict by assumption.
-  destruct (split_at_count_lt l t (sorted_strict_weak l H)) as [-> ->]. reflexivity.
+  intros H. unfold ring_range_full, clockwise, landing.
+  destruct (split_at_count_lt l t H) as [-> ->]. reflexivity.
 Qed.
 
 Lemma clockwise_filter {A} (p : Z * A -> bool) (l : ring A) t :
@@ -405,7 +385,7 @@ Qed.
 (* token snap: looking a token up gives the same walk as looking up the token of the entry
    the lookup lands on (this is what makes per-ring-token precomputation sound) *)
 Lemma clockwise_snap {A} (l : ring A) t e :
-  sorted_strict l -> hd_error (clockwise l t) = Some e -> clockwise l (fst e) = clockwise l t.
+  sorted_weak l -> hd_error (clockwise l t) = Some e -> clockwise l (fst e) = clockwise l t.
 Proof.
   intros Hs Hh. unfold clockwise in *.
   destruct (filter (fun e0 => t <=? fst e0) l) as [|e' r'] eqn:Eg.
@@ -418,12 +398,11 @@ Proof.
       rewrite Eg in Hin. destruct Hin. }
     rewrite (filter_id_all _ l Hall) in *. destruct l as [|x r]; [discriminate|].
     cbn in Hh. injection Hh as <-.
-    pose proof (sorted_strict_head_lt x r Hs) as Hlt. cbn [filter].
-    rewrite Z.leb_refl, Z.ltb_irrefl.
-    rewrite (filter_id_all (fun e0 => fst x <=? fst e0) r), (filter_nil_all (fun e0 => fst e0 <? fst x) r).
+    pose proof (sorted_weak_head_le x r Hs) as Hle.
+    rewrite (filter_id_all (fun e0 => fst x <=? fst e0) (x :: r)), (filter_nil_all (fun e0 => fst e0 <? fst x) (x :: r)).
     + cbn. now rewrite app_nil_r.
-    + intros y Hy. apply Z.ltb_ge. specialize (Hlt y Hy). lia.
-    + intros y Hy. apply Z.leb_le. specialize (Hlt y Hy). lia.
+    + intros y [<-|Hy]; apply Z.ltb_ge; [lia|specialize (Hle y Hy); lia].
+    + intros y [<-|Hy]; apply Z.leb_le; [lia|specialize (Hle y Hy); lia].
   - cbn [app hd_error] in Hh. injection Hh as ->.
     assert (Hin : In e (filter (fun e0 => t <=? fst e0) l)) by (rewrite Eg; now left).
     apply filter_In in Hin. destruct Hin as [Hin Hte]. apply Z.leb_le in Hte.
@@ -432,7 +411,7 @@ Proof.
       assert (Hx' : In x (filter (fun e0 => t <=? fst e0) l)) by (apply filter_In; split; [assumption|now apply Z.leb_le]).
       rewrite Eg in Hx'. destruct Hx' as [->|Hx']; [lia|].
       assert (Hsw : sorted_weak (e :: r')).
-      { rewrite <- Eg. apply sorted_weak_filter, sorted_strict_weak, Hs. }
+      { rewrite <- Eg. apply sorted_weak_filter, Hs. }
       apply (sorted_weak_head_le e r' Hsw x Hx'). }
     rewrite <- Eg. f_equal; apply filter_ext_in; intros x Hx.
     + destruct (t <=? fst x) eqn:E.
@@ -444,7 +423,7 @@ Proof.
 Qed.
 
 Lemma ring_range_full_snap {A} (l : ring A) t e :
-  sorted_strict l -> get_entry_for_token l t = Some e -> ring_range_full l (fst e) = ring_range_full l t.
+  sorted_weak l -> get_entry_for_token l t = Some e -> ring_range_full l (fst e) = ring_range_full l t.
 Proof.
   unfold get_entry_for_token. intros Hs Hh. rewrite !ring_range_full_clockwise in * by assumption.
   now apply clockwise_snap.
@@ -454,11 +433,8 @@ Qed.
 Lemma landing_map {A B} (f : Z * A -> B) (l : ring A) t :
   landing (map (fun e => (fst e, f e)) l) t = landing l t.
 Proof.
-  unfold landing, count_lt, count_le.
-  assert (G : forall p : Z -> bool,
-    List.length (filter (fun e => p (fst e)) (map (fun e => (fst e, f e)) l)) = List.length (filter (fun e => p (fst e)) l)).
-  { intros p. induction l as [|x r IH]; [reflexivity|]. cbn [map filter fst]. destruct (p (fst x)); cbn; now rewrite IH. }
-  rewrite (G (fun z => z <? t)), (G (fun z => z <=? t)). reflexivity.
+  unfold landing, count_lt.
+  induction l as [|x r IH]; [reflexivity|]. cbn [map filter fst]. destruct (fst x <? t); cbn [List.length]; now rewrite IH.
 Qed.
 
 Lemma get_entry_map {A B} (f : Z * A -> B) (l : ring A) t :
